@@ -63,7 +63,7 @@ LEVEL_TEXT = ("bounded exhaustive exploration: all chains of 1..4 (thorough: 1..
               "variables in every order with every assignment of attribute profiles, all bracketings of "
               "chains into nested Compose variables, all Combine tuples of 1..4 variables with every "
               "keyword combination, and chains over a mixed alphabet of plain, composed and combined "
-              "variables, each applied three times as Sequence and as Compose to seven forms of input "
+              "variables, each applied three times as Sequence and as Compose to eight forms of input "
               "value (with and without context, with untyped / typed / composed context.variable) on "
               "the real lena.variables code and judged by an independent description model")
 LEVEL_NOTE = ("holds for the enumerated alphabet only: pairwise distinct non-empty types, four attribute "
@@ -92,7 +92,7 @@ def describe(tier):
             "keywords (name / falsy name / new and overriding attributes) on chains of 1..%d; Combine of "
             "1..%d distinct variables x 12 keyword combinations (thorough: also every profile assignment "
             "with all three keywords); Combine of 1..%d items from {plain, repeated, Compose, Combine, typed Combine}; chains "
-            "of 2..%d items over an alphabet with Compose and typed Combine items; 7 value forms; every "
+            "of 2..%d items over an alphabet with Compose and typed Combine items; 8 value forms; every "
             "case applied 3 times on each of the Sequence and the Compose side"
             % (d["pool"], d["chain"], len(d["profiles"]), d["nest"], d["kw_chain"], d["combine"],
                d["cn_len"], d["mixed"]))
@@ -119,7 +119,8 @@ COMBINE_KWS_PRODUCT = [{"name": "cname", "type": "tc", "range": [[0, 1], [2, 3]]
 
 
 PRE_CLASS = {"bare": "none", "empty": "none", "plain": "none", "untyped-variable": "untyped",
-             "empty-variable": "untyped", "typed-variable": "typed", "composed-variable": "typed"}
+             "empty-variable": "untyped", "typed-variable": "typed", "composed-variable": "typed",
+             "as-first": "context-of-the-first-variable"}
 
 
 def _cyclic(i, profiles):
@@ -401,11 +402,20 @@ def _short(r):
         return repr(r)
 
 
+def _value(form, items):
+    """A fresh input value; for "as-first" one whose context.variable is what the first variable of the
+    chain writes (as if it had been applied upstream already)."""
+    if form != "as-first":
+        return M.value(form)
+    first = build(items[0], [], [])
+    return (M.DATA, {"a": {"b": [1, 2]}, "z": 0, "variable": copy.deepcopy(first.var_context)})
+
+
 def judge(res, case):
     items, kw, form = case["items"], case.get("compose_kw"), case["value"]
     group = case.get("group", "replay")
     descs = [M.describe(s) for s in items]
-    x0, c0 = M.split_value(M.value(form))
+    x0, c0 = M.split_value(_value(form, items))
     pre = c0.get("variable")
     frame0 = {k: v for k, v in c0.items() if k != "variable"}
     exp_data = M.expected_data(items, x0)
@@ -431,7 +441,7 @@ def judge(res, case):
             s = Side(side, its, kw if side == "compose" else None)
             before = snapshot(s.nodes)
             stage = "apply"
-            r1 = s.apply(M.value(form))
+            r1 = s.apply(_value(form, items))
             if not _wellformed(r1):
                 res.violation(case, _short(r1), "(data, {'variable': {...}, ...})",
                               dict(cause, law="shape"))
@@ -439,14 +449,14 @@ def judge(res, case):
             keep1 = copy.deepcopy(r1)
             after1 = snapshot(s.nodes)
             stage = "apply-again"
-            r2 = s.apply(M.value(form))
+            r2 = s.apply(_value(form, items))
             after2 = snapshot(s.nodes)
             repeat_ok = _wellformed(r2) and M.same(r1, r2)
             keep2 = None if repeat_ok else copy.deepcopy(r2)
             scribble(r1)
             scribble(r2)
             stage = "apply-after-result-mutated"
-            r3 = s.apply(M.value(form))
+            r3 = s.apply(_value(form, items))
             after3 = snapshot(s.nodes)
         except Exception as e:      # the statement promises a result for every input of the domain
             res.violation(case, "raised %s: %s" % (type(e).__name__, str(e)[:200]), "a result",
